@@ -153,9 +153,9 @@ def add_device_faults(rng, case, dry_view, k=1, kinds=("raise", "status_fail")):
     return chosen
 
 
-def interruption_cases(pid, seed, tier, *, K=(10, 16), kinds=None, dev_faults=0.0, decisions=None, **base_opts):
-    rng = gen.rng_for(pid, seed)
-    base = base_case(pid, seed, rng, **base_opts)
+def interruption_cases(pid, seed, tier, *, K=(10, 16), kinds=None, dev_faults=0.0, decisions=None, rng=None, base=None, **base_opts):
+    rng = rng or gen.rng_for(pid, seed)
+    base = base or base_case(pid, seed, rng, **base_opts)
     dry, dv, n = dry_run(base)
     yield base
     ci = main_index(base)
